@@ -429,7 +429,10 @@ class FourierSeries:
             dtype=np.float32,
             offset=header.stream_info.entries[0].hdrlen,
         )
-        return cls(data.view(np.complex64), header)
+        spec = data.view(np.complex64)
+        # The file size counts the floats of the spectrum, not the samples of the
+        # series it transforms: record the (even) transform length instead
+        return cls(spec, header.new_header({"nsamples": 2 * (spec.size - 1)}))
 
     def _check_input(self) -> None:
         if not isinstance(self.header, Header):
